@@ -6,6 +6,7 @@ import (
 	"go/constant"
 	"go/token"
 	"go/types"
+	"regexp"
 	"sort"
 	"strings"
 
@@ -1206,4 +1207,159 @@ func (e *Env) resolvedDomain(c *schema.Ctx, fd *ast.FuncDecl, lit *ast.FuncLit, 
 		return true
 	})
 	e.Run.Floor("R-DISC", "ResolvePackage calls in updateImports", nCalls, 1)
+}
+
+// RQuietRearrange (C08): the import block is only re-arranged — re-sorted, re-spaced,
+// re-parenthesised — when a spec was added to it or removed from it. Every such write in
+// updateImports has, among the conjuncts of its path condition, either a change flag (a bool
+// local that is set to true only in a block that also appends to some block's Specs) or a
+// comparison of the number of kept specs with the number of specs the block had. Anything
+// weaker (`added || …`, no guard) re-sorts or re-spaces the imports of a file in which nothing
+// changed.
+func (e *Env) RQuietRearrange() {
+	pkg := e.Prog.Pkg(load.PkgDecorator)
+	info := pkg.TypesInfo
+	c := e.Sib.Ctx[load.PkgDecorator]
+	fd := load.FuncDecl(pkg, "FileRestorer", "updateImports")
+	if fd == nil || fd.Body == nil {
+		e.Run.Violation("R-QUIET", "updateImports exists", "", "missing")
+		return
+	}
+	undo := c.InstallReaching(fd)
+	defer undo()
+	isGenDecl := func(x ast.Expr) bool {
+		t := info.TypeOf(x)
+		if t == nil {
+			return false
+		}
+		if p, ok := t.(*types.Pointer); ok {
+			t = p.Elem()
+		}
+		nt, ok := t.(*types.Named)
+		return ok && nt.Obj().Pkg() != nil && nt.Obj().Pkg().Path() == load.PkgDst && nt.Obj().Name() == "GenDecl"
+	}
+	// change flags: bool locals whose every `= true` sits in a block that appends to a .Specs
+	isFlag := func(name string) bool {
+		var obj types.Object
+		good, seen := true, false
+		var stack []ast.Node
+		ast.Inspect(fd.Body, func(n ast.Node) bool {
+			if n == nil {
+				stack = stack[:len(stack)-1]
+				return true
+			}
+			stack = append(stack, n)
+			as, ok := n.(*ast.AssignStmt)
+			if !ok || len(as.Lhs) != 1 || len(as.Rhs) != 1 {
+				return true
+			}
+			id, ok := as.Lhs[0].(*ast.Ident)
+			if !ok || id.Name != name {
+				return true
+			}
+			o := info.Uses[id]
+			if o == nil {
+				o = info.Defs[id]
+			}
+			if b, isB := o.Type().Underlying().(*types.Basic); !isB || b.Kind() != types.Bool {
+				return true
+			}
+			obj = o
+			val := c.ExprStr(as.Rhs[0])
+			if val == "false" {
+				return true
+			}
+			if val != "true" {
+				good = false
+				return true
+			}
+			seen = true
+			// innermost enclosing block appends to Specs
+			appends := false
+			for i := len(stack) - 1; i >= 0 && !appends; i-- {
+				blk, isBlk := stack[i].(*ast.BlockStmt)
+				if !isBlk {
+					continue
+				}
+				ast.Inspect(blk, func(m ast.Node) bool {
+					if a2, ok := m.(*ast.AssignStmt); ok && len(a2.Lhs) == 1 && len(a2.Rhs) == 1 {
+						if se, ok := a2.Lhs[0].(*ast.SelectorExpr); ok && se.Sel.Name == "Specs" {
+							if cl, ok := a2.Rhs[0].(*ast.CallExpr); ok && types.ExprString(cl.Fun) == "append" {
+								appends = true
+							}
+						}
+					}
+					return true
+				})
+				break
+			}
+			if !appends {
+				good = false
+			}
+			return true
+		})
+		return obj != nil && good && seen
+	}
+	lenCmp := regexp.MustCompile(`^len\(.+\) != len\(.+\)$`)
+	n := 0
+	check := func(w ast.Node, what string) {
+		n++
+		key := "updateImports: " + what + " only when a spec was added or removed"
+		cond, ok := pathCond(c, fd.Body.List, w)
+		if !ok {
+			e.Run.Undecided("R-QUIET", key, e.Prog.Pos(w.Pos()), "path condition not computable")
+			return
+		}
+		guarded := false
+		for _, cj := range splitTop(cond, " && ") {
+			cj = strings.TrimSpace(cj)
+			for strings.HasPrefix(cj, "(") && strings.HasSuffix(cj, ")") && balanced(cj[1:len(cj)-1]) {
+				cj = cj[1 : len(cj)-1]
+			}
+			inner := splitTop(cj, " && ")
+			if len(inner) > 1 {
+				for _, x := range inner {
+					if isFlag(strings.TrimSpace(x)) || (lenCmp.MatchString(strings.TrimSpace(x)) && strings.Contains(x, ".Specs")) {
+						guarded = true
+					}
+				}
+				continue
+			}
+			if isFlag(cj) || (lenCmp.MatchString(cj) && strings.Contains(cj, ".Specs")) {
+				guarded = true
+			}
+		}
+		e.Run.Check("R-QUIET", key, e.Prog.Pos(w.Pos()), guarded,
+			"reachable under `"+cond+"`, which holds for a file whose imports are already complete: the block of an unchanged file is re-arranged (order, blank lines or parentheses differ from the source)")
+	}
+	ast.Inspect(fd.Body, func(nd ast.Node) bool {
+		switch x := nd.(type) {
+		case *ast.CallExpr:
+			if fn := c.Callee(x); fn != nil && fn.Pkg() != nil && fn.Pkg().Path() == "sort" && len(x.Args) >= 1 {
+				if se, ok := x.Args[0].(*ast.SelectorExpr); ok && se.Sel.Name == "Specs" && isGenDecl(se.X) {
+					check(x, "the block is re-sorted")
+				}
+			}
+		case *ast.AssignStmt:
+			for _, l := range x.Lhs {
+				se, ok := l.(*ast.SelectorExpr)
+				if !ok {
+					continue
+				}
+				switch {
+				case (se.Sel.Name == "Lparen" || se.Sel.Name == "Rparen") && isGenDecl(se.X):
+					check(x, "the block's "+se.Sel.Name+" is rewritten")
+				case se.Sel.Name == "Before" || se.Sel.Name == "After":
+					if cl, ok := se.X.(*ast.CallExpr); ok {
+						if fn := c.Callee(cl); fn != nil && fn.Name() == "Decorations" {
+							check(x, "a spec's "+se.Sel.Name+" spacing is rewritten")
+						}
+					}
+				}
+			}
+		}
+		return true
+	})
+	e.Run.Analysed("import block rearrangements", n)
+	e.Run.Floor("R-QUIET", "import block rearrangements in updateImports", n, 4)
 }
